@@ -66,7 +66,7 @@ def setups(draw, max_cells=60, max_mags=6, max_events=300, lo=-12, hi=3, holes=T
     nobs = draw(st.one_of(st.integers(0, 4), st.integers(0, max_events)))
     pool = draw(st.lists(st.tuples(st.integers(0, nc - 1), st.integers(0, nm - 1)), min_size=1, max_size=max(1, min(12, nc * nm))))
     obs = [list(draw(st.sampled_from(pool))) for _ in range(nobs)]
-    return {"region": rc, "mags": mc, "rates": rates, "obs": obs}
+    return {"region": rc, "mags": mc, "rates": rates, "obs": obs, "layout": draw(st.sampled_from(["C", "C", "F", "view"]))}
 
 
 # ------------------------------------------------------------------ builders
@@ -89,6 +89,14 @@ class Setup:
         from csep.core.forecasts import GriddedForecast
         region = region if region is not None else self.region()
         data = numpy.array(self.rates if rates is None else rates, dtype=float)
+        # same values, different memory layout: Fortran order, or a strided view into a larger array
+        layout = self.case.get("layout", "C")
+        if layout == "F":
+            data = numpy.asfortranarray(data)
+        elif layout == "view":
+            big = numpy.full((2 * data.shape[0], 2 * data.shape[1]), 123.456)
+            big[::2, ::2] = data
+            data = big[::2, ::2]
         return GriddedForecast(start_time=T0, end_time=T1, data=data, region=region, magnitudes=numpy.array(self.edges), name=name or self.name)
 
     def event(self, i, k, m):
